@@ -763,18 +763,30 @@ def run(ctx):
     core.hyp_run(ctx, G.trial_case_st(), lambda c: oracle_trial(ctx, c), nt,
                  name="c20_trial")
 
+  total = ctx.budget_s
+
+  def until(frac, fn):
+    """Runs a phase with the soft cap moved to `frac` of the budget, so that a
+    slow phase cannot starve the later ones (core stops Hypothesis phases at
+    ctx.time_left() <= 0)."""
+    ctx.budget_s = total * frac
+    try:
+      return fn()
+    finally:
+      ctx.budget_s = total
+
   if ctx.quick:
     # everything is count-limited; the ~120 leaves of the fixed specs are
-    # always judged, the Hypothesis parts stop at the soft cap
-    part_b()
-    sampled()
+    # always judged, the Hypothesis parts stop at their soft caps
+    until(0.4, part_b)
+    until(1.0, sampled)
     exhaustive = run_dfs(ctx, reserve=-1e9)
   else:
-    # ~1000 leaves first (up to 65% of the budget), then Part B, then sampling
-    # until the soft cap
-    exhaustive = run_dfs(ctx, reserve=0.35 * ctx.budget_s)
-    part_b()
-    sampled()
+    # ~1000 leaves first (up to 45% of the budget), then Part B (up to 60%),
+    # then sampling until the soft cap
+    exhaustive = until(0.45, lambda: run_dfs(ctx))
+    until(0.6, part_b)
+    until(1.0, sampled)
   # core.merge_results sums numeric info: dfs_complete_workers == number of
   # workers means every leaf of every fixed spec was judged.
   ctx.info["dfs_complete_workers"] = 1 if exhaustive else 0
